@@ -17,7 +17,9 @@ ASSUMPTIONS = [
     "'error while handling a message' is produced by a routing.Device whose message_from_client raises for a marker request (Driver-level value errors are contained since the C12 fixes)",
     "exceptions retrieved-never of send tasks writing to a reset peer are counted, not judged",
 ]
-FAULTS = ("eof", "read-error", "eof-in-message", "junk-then-eof", "handler-exception", "peer-reset", "write-error-then-eof", "write-error-then-reset", "write-side-closed-then-eof")
+FAULTS = ("eof", "read-error", "eof-in-message", "junk-then-eof", "handler-exception", "peer-reset", "write-error-then-eof", "write-error-then-reset", "write-side-closed-then-eof",
+          # the connection ends through an error while undecoded input is still buffered
+          "read-error-in-message", "reset-in-message", "handler-exception-pipelined")
 POLICY = {0: "Also", 1: "Only", 2: None}
 
 
@@ -135,6 +137,16 @@ class Sess:
                 ep.eof()
             elif fault == "handler-exception":
                 ep.feed(b'<getProperties version="1.7" name="BOOM"/>')
+            elif fault == "handler-exception-pipelined":
+                ep.feed(b'<getProperties version="1.7" name="BOOM"/><getProperties version="1.7" device="DEV0"/><newTextVector device="DEV0" na')
+            elif fault == "read-error-in-message":
+                ep.feed(b'<newTextVector device="DEV0" name="T"><oneText name="A">par')
+                self.pump()
+                ep.read_error(ConnectionResetError("injected"))
+            elif fault == "reset-in-message":
+                ep.feed(b'<newTextVector device="DEV0" name="T"><oneText name="A">par')
+                self.pump()
+                ep.transport.lose(ConnectionResetError("peer reset"))
             elif fault == "peer-reset":
                 ep.transport.lose(ConnectionResetError("peer reset"))
             elif fault in ("write-error-then-eof", "write-error-then-reset"):
@@ -166,7 +178,13 @@ class Sess:
                 src.supply("")
             elif fault == "handler-exception":
                 src.supply('<getProperties version="1.7" name="BOOM"/>\n')
-            elif fault in ("peer-reset", "write-error-then-eof", "write-error-then-reset", "write-side-closed-then-eof"):
+            elif fault == "handler-exception-pipelined":
+                src.supply('<getProperties version="1.7" name="BOOM"/><getProperties version="1.7" device="DEV0"/><newTextVector device="DEV0" na\n')
+            elif fault == "read-error-in-message":
+                src.supply('<newTextVector device="DEV0" name="T"><oneText name="A">par')
+                self.pump()
+                src.error = OSError("injected read error")
+            elif fault in ("peer-reset", "reset-in-message", "write-error-then-eof", "write-error-then-reset", "write-side-closed-then-eof"):
                 return False
         self.pump()
         c["ended"] = True
@@ -415,7 +433,7 @@ def shards(tier, seed):
     sh = []
     for transport in ("tcp", "tty"):
         for fault in FAULTS:
-            if transport == "tty" and fault in ("peer-reset", "write-error-then-eof", "write-error-then-reset", "write-side-closed-then-eof"):
+            if transport == "tty" and fault in ("peer-reset", "reset-in-message", "write-error-then-eof", "write-error-then-reset", "write-side-closed-then-eof"):
                 continue
             sh.append((tier, transport, fault))
     return sh
